@@ -55,6 +55,9 @@ type keySharePrivateKeys struct {
 	ecdhe      *ecdh.PrivateKey
 	mlkem      *mlkem.DecapsulationKey768
 	mlkemEcdhe *ecdh.PrivateKey // [uTLS] seperate ecdhe key for pq keyshare in line with Chrome, instead of reusing ecdhe key like stdlib
+	// [uTLS] private keys of all classical key shares sent, by group: the server may select
+	// any of them, not only the first one (ecdhe).
+	ecdheByGroup map[CurveID]*ecdh.PrivateKey
 }
 
 const x25519PublicKeySize = 32
